@@ -91,17 +91,25 @@ def check(rng, m, w):
             except AttributeError as e:
                 if '"%s"' % want_bad not in str(e):
                     return "AttributeError for %s does not spell the full path: %s" % (want_bad, str(e)[:80])
-        inj = "injected_x"
-        try:
-            node.__inject__(inj, 1)
-        except BaseException as e:
-            return "first __inject__ raised %s" % type(e).__name__
-        try:
-            node.__inject__(inj, 2)
-            return "second __inject__ overwrote the attribute"
-        except AttributeError:
-            pass
-        object.__delattr__(node, inj)
+        for first_value in (1, None):
+            inj = "injected_x"
+            try:
+                node.__inject__(inj, first_value)
+            except BaseException as e:
+                return "first __inject__ raised %s" % type(e).__name__
+            try:
+                node.__inject__(inj, 2)
+                return "second __inject__ overwrote the attribute (first value %r)" % (first_value,)
+            except AttributeError:
+                pass
+            object.__delattr__(node, inj)
+        for name in declared[:4]:
+            before = getattr(node, name)
+            try:
+                node.__inject__(name, "INJECTED")
+                return "__inject__ overwrote the declared parameter %s (value %r)" % (name, before)
+            except AttributeError:
+                pass
     # detachment: mutate every list / nested value, re-extract, compare with a pristine extraction
     before_tree = w.as_str(attributes_level=3)
     pristine = _fetch.dump(w.extract())
